@@ -14,7 +14,7 @@ pub struct AsyncWorkIter<'buf, B: MutRB> {
     pub(crate) inner: WorkIter<'buf, B>,
     waker: Option<Waker>
 }
-unsafe impl<B: ConcurrentRB + MutRB<Item = T>, T> Send for AsyncWorkIter<'_, B> {}
+unsafe impl<B: ConcurrentRB + MutRB<Item = T>, T: Send> Send for AsyncWorkIter<'_, B> {}
 
 impl<'buf, B: MutRB<Item = T>, T> AsyncIterator for AsyncWorkIter<'buf, B> {
     type I = WorkIter<'buf, B>;
